@@ -17,12 +17,12 @@ CLAIMED = {
     "C09": ("Every read_* of the binary, LE and compact in-memory readers on arbitrary bytes of symbolic length: no panic, no read past the input, strict prefixes of fixed-width values rejected.", "§4 C09"),
     "C10": ("Protobuf decoders on arbitrary slices: no panic, agreement of decode_varint with a reference decoder, length prefix larger than the input rejected; recursion budget: one inductive step from every u32 budget (hook) for message, group, map entry and unknown groups.", "§4 C10"),
     "C11": ("Unchecked vs checked binary codec on 23 shapes with symbolic leaves: identical bytes into an exact-size buffer with CBMC's object-bounds checks on the unsafe writes, same reported size, same decoded values and consumed bytes, same skip.", "§4 C11"),
+    "C13": ("Rust emitted with keep_unknown_fields for corpus/t_unknown.thrift, fed by the reference encoder with one extra field (i32, string, struct or set; symbolic payload) before or after the known field: decode then re-encode equals the reference encoding with the unknown field carried byte for byte, known fields decode as without retention; type used top-level, as a method argument and nested (the nested+argument combination is a recorded known finding).", "§4 C13"),
     "C18": ("Emitted protobuf messages on reference-built concatenations with symbolic payloads: last-wins, repeated accumulation across packed/unpacked records, oneof replacement, field-wise merge of embedded messages, unknown fields of every wire type ignored.", "§4 C18"),
 }
 
 NA = {
     "C12": "async readers: one primitive with a symbolic split costs 670-936 s and 10 GB under Kani (re-polled future state machines); nothing beyond single primitives fits, so the property cannot be supported (DESIGN.md §5)",
-    "C13": "corpus and generator mode exist, the harness was not built in the time available; not claimed (DESIGN.md §5)",
     "C14": "quantifier over IDL programs with rustc as oracle; the generator (salsa, rayon, file I/O) cannot be executed symbolically (DESIGN.md §5)",
     "C15": "nom parser stacks: no verdict in 13-25 min in any formulation (DESIGN.md §5)",
     "C16": "nom parser stacks: no verdict in 13-25 min in any formulation (DESIGN.md §5)",
